@@ -28,13 +28,14 @@ EXHAUSTIVE_DOMAINS = {
     'list_lattice': 'List(Int, min_size, max_size) over {0,1,2} x {None,0,1,2} x noneable: all ordered pairs',
     'vtuple_lattice': 'variable-length Tuple(Int, min_size, max_size) over {0,1,2} x {None,0,1,2,3}: all ordered pairs',
     'enum_vs_int': 'base Int(min,max) over {None,0,1,2}^2 x child Enum over every non-empty subset of {-1,0,1,2,3}',
+    'frozen_enum_base': 'base Enum([0,1,2]) frozen at i x child (Enum / Int / smaller Enum) frozen at j, all i, j',
     'union_frozen_candidate': 'base Union([Int frozen at 0/1/2, Str]) x child in {Int, Int(min 0), Int frozen at 0/1/2, Enum, Str}',
     'union_overlap': 'Union of Bool and Int(min,max) over {None,0,2}^2 in both orders, bare or as List element x every ordered pair '
                      'of values from {True,False,-1,0,1,2,3,"s"} applied to one spec object vs fresh equal specs',
 }
 REJECT = (TypeError, ValueError, KeyError)
 DERIVE = ['same', 'min+', 'min-', 'max+', 'max-', 'nomin', 'nomax', 'noneable', 'default', 'frozen',
-          'size+', 'size-', 'elem', 'enum-', 'enum+', 'field+', 'field-', 'cand+', 'kind', 'inner', 'to-enum', 'nomaxsize']
+          'size+', 'size-', 'elem', 'enum-', 'enum+', 'field+', 'field-', 'cand+', 'kind', 'inner', 'to-enum', 'nomaxsize', 'redefault']
 
 
 OVERLAP_VALUES = [True, False, -1, 0, 1, 2, 3, 's']
@@ -135,6 +136,16 @@ def exhaustive(tier):
         for wrap in ('none', 'list'):
           for x, y in itertools.product(OVERLAP_VALUES, repeat=2):
             yield {'overlap': {'lo': lo, 'hi': hi, 'bool_first': bool_first, 'str': False, 'wrap': wrap}, 'seq': [x, y]}
+  def frozen_enums():
+    vals = [0, 1, 2]
+    for i in range(3):
+      for j in range(3):
+        base = {'t': 'enum', 'values': vals, 'default': [i], 'frozen': True}
+        for child in ({'t': 'enum', 'values': vals, 'default': [j], 'frozen': True},
+                      {'t': 'int', 'min': None, 'max': None, 'default': [j], 'frozen': True},
+                      {'t': 'enum', 'values': vals[:2], 'default': [j % 2], 'frozen': True}):
+          yield {'a': base, 'derive': [], 'other': child, 'values': [[0, [0]], [0, [1]], [0, [2]], [1, [0]], [1, [1]], [1, [2]], [2, [0]]]}
+
   def ufcs():
     for fv in (0, 1, 2):
       for child in ('int', 'int_min0', 'enum', 'str'):
@@ -142,7 +153,7 @@ def exhaustive(tier):
       for cv in (0, 1, 2):
         yield {'ufc': {'frozen': fv, 'child': 'int_frozen', 'child_frozen': cv}}
   return {'int_lattice': pairs(ints()), 'list_lattice': pairs(lists()), 'vtuple_lattice': pairs(vtuples()),
-          'enum_vs_int': enums(), 'union_overlap': overlaps(), 'union_frozen_candidate': ufcs()}
+          'enum_vs_int': enums(), 'union_overlap': overlaps(), 'union_frozen_candidate': ufcs(), 'frozen_enum_base': frozen_enums()}
 
 
 def _derive(d, kind, arg):
@@ -184,6 +195,10 @@ def _derive(d, kind, arg):
       d.pop('frozen', None)
     else:
       d['default'] = [arg]
+    return d
+  if kind == 'redefault' and 'default' in d:
+    # another default (and, if frozen, another frozen value)
+    d['default'] = [(x + 1 + arg) for x in d['default']] or [arg + 1]
     return d
   if kind == 'frozen':
     if d.get('frozen'):
@@ -577,7 +592,7 @@ def execute(case):
   # (5) extension narrows
   try:
     ext = specs.to_spec(db)     # a fresh copy of b
-    ext.extend(sa)
+    ext = ext.extend(sa)     # (extend returns the extended spec, which may be a new object)
     extended = True
   except REJECT:
     extended = False
